@@ -64,9 +64,13 @@ def legit (w : World) (i : InstW) (op : PendingOp) : Bool × String :=
       | none => (true, "")
       | some r =>
         let inStop := w.apis.any fun a => a.inst == i.cfg.id && (match a.kind with | .stopctx d _ _ _ => d | _ => false)
+        -- did the deleting instance lead when its stop call began?  (distinguishes the histories of known finding F10)
+        let ledAtStop := w.apis.any fun a => a.inst == i.cfg.id && a.flagAtCall && (match a.kind with | .stopctx d _ _ _ => d | _ => false)
+        let how := if ledAtStop then "it led when its StopWithContext(DeleteKey) began and the record changed hands since"
+                   else "it did not lead when its stop call began"
         match r.val with
-        | .own rid rtok _ => (r.writer == i.cfg.id && rid == i.cfg.id && rtok == i.lastOwnTok && inStop, "deletes a record it does not own (or outside its own graceful shutdown)")
-        | _ => (false, "deletes a record it does not own")
+        | .own rid rtok _ => (r.writer == i.cfg.id && rid == i.cfg.id && rtok == i.lastOwnTok && inStop, s!"deletes a record it does not own (or outside its own graceful shutdown); {how}")
+        | _ => (false, s!"deletes a record it does not own; {how}")
     | _ => (true, "")
 
 /-- Is this update a refresh (same writer, same identity and token)? -/
@@ -319,6 +323,10 @@ def step (m : MState) (e : TEv) : MState :=
               (checkW w ok "C10" "takeover-without-rights"
                 s!"instance {x.cfg.id} (priority {x.cfg.prio}, takeover {x.cfg.takeover}) replaces {repr (w.live p.key)}: {why}").hit "C10:takeover"
             else w
+          -- C13: a live record the instance did not write is replaced only by legitimate preemption
+          let w := if p.kind = .update ∧ ¬ isRefresh w x p then
+              checkW w ok "C13" "foreign-record-replaced" s!"instance {x.cfg.id} replaces the live record {repr (w.live p.key)} it did not write: {why}"
+            else w
           -- C05: acquisitions publish a never-seen token; refreshes republish the same one
           let w := match p.kind, p.val with
             | .create, .own _ tok _ => checkW w (¬ w.tokensSeen.contains tok) "C05" "token-reused" s!"create by {x.cfg.id} republishes token {tok}"
@@ -408,7 +416,21 @@ def step (m : MState) (e : TEv) : MState :=
         | none => (w0.tombs.lookup x.cfg.key).getD 0
       if rev ≠ 0 ∧ rev < newest then { m with w := w0.setInst { x with lastStaleWev := e.t } } else { m with w := w0 }
   | .wdrop _ _ _ => { m with w := w0 }
-  | .site _ _ => { m with w := w0 }
+  | .site op fn =>
+    -- C09: background activity ends as soon as operations already in flight return — an operation that a background
+    -- goroutine issues after a stop call began is remembered and judged when that call returns successfully
+    match w0.op? op with
+    | none => { m with w := w0 }
+    | some p =>
+      match w0.inst? p.inst with
+      | none => { m with w := w0 }
+      | some x =>
+        match x.stopCalledSince with
+        | some ts =>
+          if ts < p.issued ∧ x.stopsInProgress > 0 ∧ fn ≠ "StopWithContext" ∧ fn ≠ "Stop" then
+            { m with w := w0.setInst { x with opsDuringStop := (op, fn, p.issued) :: x.opsDuringStop } }
+          else { m with w := w0 }
+        | none => { m with w := w0 }
   | .flag i b il tok lid =>
     match w0.inst? i with
     | none => { m with w := w0 }
@@ -516,18 +538,28 @@ def step (m : MState) (e : TEv) : MState :=
         | .stop, .ok =>
           -- a Start called while this stop was in progress begins a new run: the stop's guarantees end there
           if a.superseded then (w.setInst { x with stopsInProgress := x.stopsInProgress - 1 }).hit "C09:stop-superseded-by-start" else
+          let w := x.opsDuringStop.foldl (fun acc (o : Nat × String × Nat) =>
+            checkW acc (decide (o.2.2 ≤ a.t)) "C09" "store-op-after-stop-began" s!"instance {i}: {o.2.1} issued store operation {o.1} at {o.2.2}, after Stop was called at {a.t}") w
+          let x := { x with opsDuringStop := [] }
           let w := w.setInst { x with stopsInProgress := x.stopsInProgress - 1, stoppedSince := some e.t }
           let w := checkW w (¬ x.flag) "C09" "leader-when-stop-returns" s!"instance {i} still reports leadership when Stop returns"
           w
         | .stopctx del _ _ _, .ok =>
           if a.superseded then (w.setInst { x with stopsInProgress := x.stopsInProgress - 1 }).hit "C09:stop-superseded-by-start" else
+          let w := x.opsDuringStop.foldl (fun acc (o : Nat × String × Nat) =>
+            checkW acc (decide (o.2.2 ≤ a.t)) "C09" "store-op-after-stop-began" s!"instance {i}: {o.2.1} issued store operation {o.1} at {o.2.2}, after StopWithContext was called at {a.t}") w
+          let x := { x with opsDuringStop := [] }
           let w := w.setInst { x with stopsInProgress := x.stopsInProgress - 1, stoppedSince := some e.t }
           let w := checkW w (¬ x.flag) "C09" "leader-when-stop-returns" s!"instance {i} still reports leadership when StopWithContext returns"
           let mine := match w.live x.cfg.key with
             | some rr => (match rr.val with | .own id _ _ => id == i && rr.writer == i | _ => false)
             | none => false
-          checkW w (!(del && mine && a.ownerAtCall)) "C09" "record-survives-deletekey" s!"instance {i}: its record is still live when StopWithContext(DeleteKey) returns"
-        | .stop, _ | .stopctx _ _ _ _, _ => w.setInst { x with stopsInProgress := x.stopsInProgress - 1 }
+          -- owner at the call, or of a record that was written during the call and acknowledged to the instance
+          let ackedMine := match w.live x.cfg.key with
+            | some rr => mine && decide (x.lastAckRev = rr.rev) && (match rr.val with | .own _ tok _ => x.runToks.contains tok | _ => false)
+            | none => false
+          checkW w (!(del && mine && (a.ownerAtCall || ackedMine))) "C09" "record-survives-deletekey" s!"instance {i}: its record is still live when StopWithContext(DeleteKey) returns"
+        | .stop, _ | .stopctx _ _ _ _, _ => w.setInst { x with stopsInProgress := x.stopsInProgress - 1, opsDuringStop := [] }
         | .validate _, .verdict true tok _ =>
           checkW (w.hit "C04:validate-true")  (tok != 0 && a.sawValid.contains tok && a.flagAtCall && tok == a.tokAtCall) "C04" "validate-true-unsound"
             s!"instance {i}: ValidateToken returned true for token {tok}, but during the call the record never held its id with that token (seen: {a.sawValid}; leader at call: {a.flagAtCall}, term token {a.tokAtCall})"
